@@ -122,7 +122,7 @@ class Module:
         self.model = model
         self.path = path
         self.text = text
-        key = (path, hash(text), len(text))
+        key = (path, hash(text), len(text), hash(tuple(sorted((k, hash(v)) for k, v in getattr(model, 'overlay', {}).items()))))
         if key not in _PARSE:
             try:
                 tree = ast.parse(text, filename=path)
@@ -130,7 +130,7 @@ class Module:
                 raise AnchorError('%s does not parse: %s' % (path, e))
             from . import alpha, unrefactor
             # inverse refactorings relative to the reference shape (new constants / helpers / explaining variables / conditional expressions)
-            self.unrefactored = unrefactor.normalise(tree, path, alpha._ref().get(path))
+            self.unrefactored = unrefactor.normalise(tree, path, alpha._ref().get(path), model=model)
             self.renamed = alpha.normalise(tree, path)      # locals that were merely renamed get their reference names back
             _PARSE[key] = tree
         self.tree = _PARSE[key]
